@@ -72,6 +72,16 @@ CLAIMED = {
         "Bounded: <=6 rows on grid 0..12, <=4 chunks, windows 0..3 x 0..3.",
    technique="TLA+ model checking of an implementation-shaped spec + replay of all TLC behaviours into the real plugin + TLC trace validation at P-level",
    design="4/C09"),
+ "C12": dict(
+   text="spec/Contracts.tla enumerates every (plugin kind, violation kind, position, processor) tuple with the applicability "
+        "table and models the chain of checks applied on each path (_fix_output, _check_dtype, Chunk.__init__, "
+        "DownChunkingPlugin._fix_output, continuity_check); TLC checks that every violating output is rejected before it is "
+        "delivered (and that the chain as found was not). The harness executes every tuple on the real code with a "
+        "misbehaving harness plugin of that kind and observes exception vs normal return of get_array and is_stored from a "
+        "fresh context.",
+   note="Trusted: TLC, harness plugins injecting the violation into an otherwise correct plugin of each kind. Chunks of <=500 rows.",
+   technique="TLA+ model of the check chains (TLC) + execution of every enumerated tuple on the real code",
+   design="4/C12"),
 }
 NOT_BUILT = "decision procedure (TLA+ module + binding) not built yet in this session; see DESIGN.md section 4 for the plan"
 
